@@ -42,7 +42,7 @@ EXPECTED_PROBES = {'C19': ['nested_silent', 'exception_in_silent', 'reentrant_em
                            'last_before_normal', 'single_emit', 'reporter_crossing',
                            'reset_then_cross', 'silent_under_set_silent', 'callback_raises',
                            'emit_while_silenced', 'sender_filter_excludes',
-                           'unconnect_several_items']}
+                           'unconnect_several_items', 'explicit_last_false']}
 
 
 # --------------------------------------------------------------------------------------------------
@@ -380,6 +380,9 @@ def execute(plan, ctx):
             kw = {}
             if op['last']:
                 kw['last'] = True
+            elif (step + op['cb']) % 3 == 0:
+                kw['last'] = False        # the flag spelled out: an ordinary registration
+                ctx.probe('explicit_last_false')
             if op['form'] == 'decorator':
                 dec = ctx.real('connect', w.em.connect, event=event, sender=sender, **kw)
                 out = ctx.real('connect', dec, f)
